@@ -120,6 +120,20 @@ RedrawsOf(g) ==
     {SwapKids(g, xi[1], xi[2]) : xi \in {p \in Internals(g) \X (1..g.n) : p[2] < Len(g.kids[p[1]])}}
     \cup (IF IsRooted(g) THEN {} ELSE {Reseed(g, r) : r \in Internals(g) \ {g.seed}})
 
+\* ------------------------------------------------------------ edits that change the rooting state or the leaf set
+SetRootedOp(g, r) == [g EXCEPT !.rooted = r]
+\* the leaf x removed, node ids above x shifted down (its parent may become a unifurcation)
+RemoveLeaf(g, x) ==
+    LET old(i) == IF i >= x THEN i + 1 ELSE i
+        new(y) == IF y > x THEN y - 1 ELSE y
+        n1 == g.n - 1
+    IN [n |-> n1, seed |-> new(g.seed),
+        kids |-> [i \in 1..n1 |-> LET q == SelectSeq(g.kids[old(i)], LAMBDA z : z # x) IN [k \in 1..Len(q) |-> new(q[k])]],
+        par |-> [i \in 1..n1 |-> IF g.par[old(i)] = 0 THEN 0 ELSE new(g.par[old(i)])],
+        eh |-> [i \in 1..n1 |-> i], eid |-> [i \in 1..n1 |-> i],
+        tx |-> [i \in 1..n1 |-> g.tx[old(i)]], len |-> [i \in 1..n1 |-> g.len[old(i)]],
+        lab |-> [i \in 1..n1 |-> g.lab[old(i)]], rooted |-> g.rooted]
+
 \* ------------------------------------------------------------ metric axioms (stated on the definitions)
 \* triangle inequality for the Euclidean distance from the exact squares A = d12^2, B = d23^2, C = d13^2:
 \* sqrt(C) <= sqrt(A) + sqrt(B)  <=>  C - A - B <= 0  \/  (C - A - B)^2 <= 4AB
